@@ -223,6 +223,10 @@ def check(ctx):
     # not count) exactly one set_config_mode(any pump or blower on)
     from ..facademodel import mode_decision
     mode_decision(ctx, repo, "R5")
+    ctx.rule("R6", "what counts as on: GeckoPump and GeckoBlower, built by their constructors on a model spa, read is_on == (state is not 'OFF') for every label of every label list their state items have in any shipped table (pumps OFF/HIGH/LOW and OFF/HIGH, waterfall and blower OFF/ON) and == the flag for Bool items")
+    from ..facademodel import device_on_states
+    from ..packs import tables
+    device_on_states(ctx, repo, "R6", tables(repo))
     ini = repo.own_method("GeckoAsyncFacade", "__init__")
     gi = cfg_of(ini)
     ok = False
